@@ -417,15 +417,24 @@ def rows_int(A):
 
 
 def run_py(modname, fn, c, by='no', seed=None, output_stl=False, variant=0):
+    """one call of the implementation.  The call FORM is part of what a caller chooses: half of the calls (a fixed function of the case,
+    so that a replay makes the same call) pass sgname, sgno, cell_choice, output_stl positionally, in the order of the reviewed
+    signature (unit_cell, sintlmin, sintlmax, sgname=None, sgno=None, cell_choice='standard', output_stl=False)"""
+    import zlib
     m = module(modname)
     if seed is not None:
         np.random.seed(seed)
     f = getattr(m, fn)
     cellarg = cell_argument(c, variant)
+    positional = zlib.crc32(('%s|%s|%s|%s|%s|%s' % (modname, fn, by, c.s['key'], output_stl, variant)).encode()) % 2 == 1
     if by == 'no':
+        if positional:
+            return f(cellarg, c.smin, c.smax, None, c.s['no'], call_cc(c.s), output_stl)
         return f(cellarg, c.smin, c.smax, sgno=c.s['no'], cell_choice=call_cc(c.s), output_stl=output_stl)
     nv = name_variants(c.s)
     nm, cc = nv[variant % len(nv)]
+    if positional:
+        return f(cellarg, c.smin, c.smax, nm, None, cc, output_stl)
     return f(cellarg, c.smin, c.smax, sgname=nm, cell_choice=cc, output_stl=output_stl)
 
 
